@@ -114,6 +114,9 @@ func (c *canary) concreteName(n string) string {
 // case-insensitive mode: the host calls are a subset of the model's)
 var hostCtor = "CHost"
 
+// hostView: the fresh DirFS's own picture of the root ("None": not looked at)
+var hostView = "None"
+
 func emitHost(w *gal.Writer, class string, c *canary, tree string, stop bool, ops []dop, answers []bool, changed []string, extra map[string]any) {
 	var ts []string
 	for _, o := range ops {
@@ -145,8 +148,8 @@ func emitHost(w *gal.Writer, class string, c *canary, tree string, stop bool, op
 		ans = "(Some " + gal.List(bs) + ")"
 		desc["answers"] = answers
 	}
-	term := fmt.Sprintf("("+hostCtor+" {| hc_base := %s; hc_roots := %s; hc_tree := %s; hc_stop := %s; hc_ops := %s; hc_answers := %s; hc_changed := %s |})",
-		gal.Str(T+"/root"), rootsTerm, tree, gal.Bool(stop), gal.List(ts), ans, gal.StrList(changed))
+	term := fmt.Sprintf("("+hostCtor+" {| hc_base := %s; hc_roots := %s; hc_tree := %s; hc_stop := %s; hc_ops := %s; hc_answers := %s; hc_view := %s; hc_changed := %s |})",
+		gal.Str(T+"/root"), rootsTerm, tree, gal.Bool(stop), gal.List(ts), ans, hostView, gal.StrList(changed))
 	w.Add(gal.Case{Term: term, Desc: desc, Class: class, Trivial: len(ops) == 0})
 	clock(class)
 }
@@ -197,6 +200,207 @@ func runHostInstallCase(w *gal.Writer, class string, es []entry) {
 	}()
 	emitHost(w, class, c, tree, true, entryOps(es), nil, c.allChanges(),
 		map[string]any{"entries": es, "install_error": c.abstract(errStr(ierr)), "through": "installAPKFiles"})
+}
+
+// ---- a DirFS opened on a root that already has content ---------------------------------------
+
+// dumpView prints what a filesystem says about itself: ReadDir recursively (the entry types
+// of a dirFS come from its in-memory tree), Readlink for links; never through a link
+func (c *canary) dumpView(f apkfs.FullFS, dir string) string {
+	es, err := f.ReadDir(dir)
+	if err != nil {
+		return "(TDir [])"
+	}
+	var items []string
+	for _, e := range es {
+		p := filepath.Join(dir, e.Name())
+		var t string
+		switch {
+		case e.Type()&os.ModeSymlink != 0:
+			target, _ := f.Readlink(p)
+			t = "(TLink " + gal.Str(c.abstract(target)) + ")"
+		case e.Type()&os.ModeDir != 0:
+			t = c.dumpView(f, p)
+		default:
+			t = "TFile"
+		}
+		items = append(items, gal.Pair(gal.Str(e.Name()), t))
+	}
+	return "(TDir " + gal.List(items) + ")"
+}
+
+// what an earlier run (or an unpacked rootfs) left in the root: links of every kind of the
+// climb-link class, directories, files, a hard link
+var preContent = []dop{
+	{Op: "OMkdirAll", Name: "usr/lib"}, {Op: "OMkdirAll", Name: "opt/sub"}, {Op: "OMkdirAll", Name: "var/spool"},
+	{Op: "OWriteFile", Name: "usr/f"}, {Op: "OLink", Name: "usr/fh", Target: "usr/f"},
+	{Op: "OSymlink", Name: "labs", Target: T + "/victim"},         // absolute, to a host directory
+	{Op: "OSymlink", Name: "lrel", Target: "../victim"},           // relative, climbing from depth 0
+	{Op: "OSymlink", Name: "opt/lrel2", Target: "../../victim"},   // ... from depth 1
+	{Op: "OSymlink", Name: "opt/sub/lrel3", Target: "../../../../victim"}, // ... two levels above the root
+	{Op: "OSymlink", Name: "var/spool/job", Target: "../../../victim/keep.txt"}, // to a host FILE
+	{Op: "OSymlink", Name: "ldang", Target: "nowhere/x"},          // dangling
+	{Op: "OSymlink", Name: "lin", Target: "usr"},                  // to an in-root directory
+	{Op: "OSymlink", Name: "usr/lib64", Target: "lib"},
+	{Op: "OSymlink", Name: "lfile", Target: "existing.txt"},       // to an in-root file
+	{Op: "OSymlink", Name: "lloop", Target: "lloop"},
+	{Op: "OSymlink", Name: "opt/lup", Target: ".."},               // to the root itself
+}
+
+var preLinks = []string{"labs", "lrel", "opt/lrel2", "opt/sub/lrel3", "ldang", "lin", "usr/lib64", "opt/lup", "lloop"}
+
+// populate the root with plain os calls (how == "os") or through an earlier DirFS session
+// of the same experiment (how == "dirfs"), optionally with an in-root /victim
+func (c *canary) populate(how string, content []dop, inRootVictim bool) {
+	root := filepath.Join(c.top, "root")
+	if inRootVictim {
+		content = append([]dop{{Op: "OMkdirAll", Name: "victim"}, {Op: "OWriteFile", Name: "victim/keep.txt"}}, content...)
+	}
+	if how == "dirfs" {
+		f := apkfs.DirFS(root)
+		for _, o := range content {
+			_ = applyOp(c, f, o)
+		}
+	} else {
+		for _, o := range content {
+			p := filepath.Join(root, o.Name)
+			switch o.Op {
+			case "OMkdirAll":
+				_ = os.MkdirAll(p, 0o755)
+			case "OWriteFile":
+				_ = os.WriteFile(p, []byte("left by an earlier run"), 0o644)
+			case "OSymlink":
+				_ = os.Symlink(c.concrete(o.Target), p)
+			case "OLink":
+				_ = os.Link(filepath.Join(root, o.Target), p)
+			}
+		}
+	}
+	c.snap = c.snapshot()
+}
+
+// operations (or package entries) through a FRESH DirFS on the populated root
+func runPreCase(w *gal.Writer, class, how string, content []dop, inRootVictim bool, ops []dop, install bool) {
+	c := newCanary()
+	defer c.close()
+	c.addVictims()
+	c.populate(how, content, inRootVictim)
+	tree := c.dumpHost(c.outer)
+	f := apkfs.DirFS(filepath.Join(c.top, "root"))
+	hostView = "(Some " + c.dumpView(f, ".") + ")"
+	defer func() { hostView = "None" }()
+	extra := map[string]any{"populated_by": how, "in_root_victim": inRootVictim}
+	if install {
+		var es []entry
+		for _, o := range ops {
+			switch o.Op {
+			case "OMkdirAll":
+				es = append(es, entry{Type: tar.TypeDir, Name: o.Name})
+			case "OCreate":
+				es = append(es, entry{Type: tar.TypeReg, Name: o.Name, Data: "package content", Sum: true})
+			case "OSymlink":
+				es = append(es, entry{Type: tar.TypeSymlink, Name: o.Name, Link: o.Target})
+			case "OLink":
+				es = append(es, entry{Type: tar.TypeLink, Name: o.Name, Link: o.Target})
+			}
+		}
+		var ierr error
+		func() {
+			defer func() {
+				if r := recover(); r != nil {
+					ierr = fmt.Errorf("panic: %v", r)
+				}
+			}()
+			a, err := apk.New(apk.WithFS(f), apk.WithArch("x86_64"), apk.WithIgnoreMknodErrors(true))
+			if err != nil {
+				ierr = err
+				return
+			}
+			_, ierr = apk.VerifInstallAPKFiles(context.Background(), a, bytes.NewReader(buildTar(c, es)), &apk.Package{Name: "second-run", Version: "1.0-r0", Origin: "second-run"})
+		}()
+		extra["entries"], extra["install_error"], extra["through"] = es, c.abstract(errStr(ierr)), "installAPKFiles"
+		emitHost(w, class+"-install", c, tree, true, entryOps(es), nil, c.allChanges(), extra)
+		return
+	}
+	var answers []bool
+	var errs []string
+	for _, o := range ops {
+		err := applyOp(c, f, o)
+		answers = append(answers, err == nil)
+		errs = append(errs, c.abstract(errStr(err)))
+	}
+	extra["errors"] = errs
+	emitHost(w, class, c, tree, false, ops, answers, c.allChanges(), extra)
+}
+
+// what a second run does beneath and at a name left by the first (the hard-linked pair usr/f, usr/fh is
+// mirrored and looked at but not written: the model keeps no link counts, a hard link is a copy there)
+func preOps(r *gal.Rand, treeFirstOnly bool) []dop {
+	n := 1 + r.Intn(4)
+	var ops []dop
+	for i := 0; i < n; i++ {
+		l := gal.Pick(r, preLinks)
+		k := r.Intn(12)
+		if treeFirstOnly {
+			k = r.Intn(4)
+		}
+		switch k {
+		case 0, 1:
+			ops = append(ops, dop{Op: "OCreate", Name: l + "/job"})
+		case 2:
+			ops = append(ops, dop{Op: "ORemove", Name: l + "/keep.txt"})
+		case 3:
+			ops = append(ops, dop{Op: "OCreate", Name: gal.Pick(r, []string{"var/spool/job", "lfile", "ldang", "usr/lib64/x"})})
+		case 4:
+			ops = append(ops, dop{Op: "OMkdirAll", Name: l + "/newdir"})
+		case 5:
+			ops = append(ops, dop{Op: "OWriteFile", Name: l + "/w.txt"})
+		case 6:
+			ops = append(ops, dop{Op: "ORemove", Name: l})
+		case 7:
+			ops = append(ops, dop{Op: "OSymlink", Name: l, Target: "usr"})
+		case 8:
+			ops = append(ops, dop{Op: "OLink", Name: "stolen", Target: l + "/keep.txt"})
+		case 9:
+			ops = append(ops, dop{Op: "OChmod", Name: l + "/keep.txt"})
+		case 10:
+			ops = append(ops, dop{Op: "OMkdir", Name: l + "/d"})
+		default:
+			ops = append(ops, dop{Op: "OWriteFile", Name: gal.Pick(r, []string{"var/spool/job", "lfile", "usr/new"})})
+		}
+	}
+	return ops
+}
+
+func stagePreexisting(w *gal.Writer, r *gal.Rand) {
+	// the shape of seeded C18-7: a link to a host directory left in the root, a file beneath it
+	for _, how := range []string{"os", "dirfs"} {
+		runPreCase(w, "preexisting", how, []dop{{Op: "OMkdirAll", Name: "var"}, {Op: "OSymlink", Name: "var/spool", Target: T + "/victim"}}, false,
+			[]dop{{Op: "OCreate", Name: "var/spool/job"}}, false)
+		runPreCase(w, "preexisting", how, []dop{{Op: "OMkdirAll", Name: "var"}, {Op: "OSymlink", Name: "var/spool", Target: "../../victim"}}, false,
+			[]dop{{Op: "OCreate", Name: "var/spool/job"}}, true)
+		// every link of the content, a file beneath it and a removal beneath it
+		for _, in := range []bool{false, true} {
+			var ops []dop
+			for _, l := range preLinks {
+				ops = append(ops, dop{Op: "OCreate", Name: l + "/job"}, dop{Op: "ORemove", Name: l + "/keep.txt"})
+			}
+			ops = append(ops, dop{Op: "OCreate", Name: "var/spool/job"}, dop{Op: "OCreate", Name: "lfile"}, dop{Op: "OCreate", Name: "ldang"})
+			runPreCase(w, "preexisting", how, preContent, in, ops, false)
+		}
+		for _, l := range preLinks {
+			runPreCase(w, "preexisting", how, preContent, true, []dop{{Op: "OCreate", Name: l + "/job"}}, true)
+		}
+	}
+	// the host-first methods beneath a link left there are finding C18-F2, as beneath one made in the session
+	runPreCase(w, "preexisting-beneath", "os", preContent, true, []dop{{Op: "OWriteFile", Name: "labs/w.txt"}, {Op: "OMkdirAll", Name: "lrel/newdir"},
+		{Op: "OLink", Name: "stolen", Target: "opt/lrel2/keep.txt"}, {Op: "OWriteFile", Name: "var/spool/job"}}, false)
+	runPreCase(w, "preexisting-beneath", "os", preContent, true, []dop{{Op: "ORemove", Name: "labs"}, {Op: "OMkdirAll", Name: "labs"}, {Op: "OCreate", Name: "labs/job"},
+		{Op: "OSymlink", Name: "lrel", Target: "usr"}, {Op: "OCreate", Name: "usr/lib64/x"}, {Op: "OCreate", Name: "opt/lup/usr/y"}}, false)
+	for i := 0; i < scale(16, 400); i++ {
+		how := gal.Pick(r, []string{"os", "dirfs"})
+		runPreCase(w, "preexisting", how, preContent, r.Bool(), preOps(r, i%4 != 0), i%5 == 4)
+	}
 }
 
 // ---- the class ----------------------------------------------------------------------------
@@ -434,6 +638,9 @@ func stageCanary3(w *gal.Writer, r *gal.Rand) {
 		runHostCase(w, "case-insensitive", ops, ci)
 	}
 	hostCtor = "CHost"
+
+	// -- a DirFS opened on a root that already has content ----------------------------------------
+	stagePreexisting(w, r)
 
 	// -- generated -----------------------------------------------------------------------------
 	for i := 0; i < scale(45, 900); i++ {
